@@ -19,10 +19,10 @@ def sldEnd : SLD.Stop → SLD.End
   | .raised b _ => .ball b
 
 theorem solveQuery_call (prog : List Term) (query : Term) (max f2 : Nat) (as2 : List Term) (e2 : SLD.End)
-    {fl : Bool} (hb : bodyS fl query = true) (hw : wfT query = true) (hqnv : ∀ v, query ≠ .var v)
+    {fl : Bool} (hb : dbodyS fl query = true) (hw : wfT query = true) (hqnv : ∀ v, query ≠ .var v)
     (h : SLD.solveQuery f2 prog query max = some (as2, e2)) :
     ∃ n r, SLD.solveAlts false (progS prog) n 0 (SLD.maxVar query)
-        [.frames (SLD.bodyFrames false query 0)] [] query max = some r ∧
+        ((SLD.disjuncts query).map (fun x => .frames (SLD.bodyFrames false x 0))) [] query max = some r ∧
       as2 = r.answers ∧ e2 = sldEnd r.stop := by
   unfold SLD.solveQuery at h
   simp only [Bool.false_eq_true, if_false] at h
@@ -32,14 +32,14 @@ theorem solveQuery_call (prog : List Term) (query : Term) (max f2 : Nat) (as2 : 
   cases f2 with
   | zero => rw [solve_zero] at h; cases h
   | succ f =>
-    rw [solve_call1 _ _ _ _ _ _ _ _ _ hb hw hqnv] at h
+    rw [solve_call1M _ _ _ _ _ _ _ _ _ hb (fun f hf => by rw [hf] at hw; simp [wfT] at hw) hqnv] at h
     cases hs : SLD.solveAlts false (progS prog) f 0 (SLD.maxVar query)
-        [.frames ((SLD.conjuncts query).map (SLD.Frame.goal · 0))] [] query max with
+        ((SLD.disjuncts query).map (fun x => .frames (SLD.bodyFrames false x 0))) [] query max with
     | none => rw [hs] at h; cases h
     | some r =>
       rw [hs] at h
       simp only [Option.some.injEq, Prod.mk.injEq] at h
-      exact ⟨f, r, by simpa [SLD.bodyFrames] using hs, h.1.symm, h.2.symm⟩
+      exact ⟨f, r, hs, h.1.symm, h.2.symm⟩
 
 /-! ### the VM's first activation: the query's own clause -/
 
